@@ -21,6 +21,12 @@ def register():
     REGISTRY["C14"] = (p_vsign.run_c14, "proof")
     import p_c12
     REGISTRY["C12"] = (p_c12.run_c12, "proof")
+    import p_io
+    REGISTRY["C15"] = (p_io.run_c15, "proof")
+    REGISTRY["C16"] = (p_io.run_c16, "proof")
+    REGISTRY["C17"] = (p_io.run_c17, "other")
+    REGISTRY["C18"] = (p_io.run_c18, "proof")
+    REGISTRY["C20"] = (p_io.run_c20, "proof")
     import p_signtype
     REGISTRY["C19"] = (p_signtype.run_c19, "proof")
 
